@@ -31,7 +31,8 @@ pub fn boundary(s: &str, mut at: usize) -> usize { while !s.is_char_boundary(at)
 
 fn text(rng: &mut Rng, w: u16, multiline: bool) -> String {
     let w = w as u64;
-    let len = match rng.below(10) { 0 => 0, 1 => 1, 2 => w.saturating_sub(1), 3 => w, 4 => w + 1, 5 => 2 * w, 6 => 2 * w + 1, _ => rng.below(2 * w + 3) };
+    // (exact multiples of the width up to 7 rows: where a row count computed in floating point can be off by one)
+    let len = match rng.below(12) { 0 => 0, 1 => 1, 2 => w.saturating_sub(1), 3 => w, 4 => w + 1, 5 => 2 * w, 6 => 2 * w + 1, 10 => 3 * w, 11 => 7 * w, _ => rng.below(2 * w + 3) };
     let mut s: String = (0..len).map(|_| (b'a' + rng.below(26) as u8) as char).collect();
     // double-width characters (two columns each): never on a one-column terminal, which cannot show them
     if w >= 2 && rng.chance(1, 6) { s = s.chars().map(|c| if rng.chance(1, 3) { *rng.pick(&['日', '本', '語']) } else { c }).collect(); }
@@ -76,7 +77,7 @@ fn fin(rng: &mut Rng, w: u16) -> Fin { match rng.below(5) { 0 => Fin::Leave, 1 =
 pub struct Case { pub w: u16, pub h: u16, pub hz: u8, pub tpl: usize, pub len: Option<u64>, pub on_finish: Fin, pub ops: Vec<BOp> }
 
 pub fn gen_case(rng: &mut Rng, fit_only: bool) -> Case {
-    let w = *rng.pick(&[1u16, 2, 3, 5, 7, 10, 20, 40]);
+    let w = *rng.pick(&[1u16, 2, 3, 5, 7, 10, 20, 40, 75, 91, 93]);
     let h = if fit_only { *rng.pick(&[6u16, 8, 12, 24]) } else { *rng.pick(&[2u16, 3, 4, 6, 24]) };
     let hz = if rng.chance(1, 3) { *rng.pick(&[1u8, 20, 255]) } else { 0 };
     let tpl = rng.below(TEMPLATES.len() as u64) as usize;
